@@ -89,8 +89,13 @@ def hook(nm, ctx, *a):
         el = elid(a[0])
     raised = N[0] in FAULTS
     rec(k="hook", name=nm, el=el, tag=tag, pos=pos, raised=raised)
-    if [nm, el] in CASE.get("skips", []):
-        a[0].skip("excluded by hook")
+    for sk in CASE.get("skips", []):
+        if sk[0] == nm and sk[1] == el:
+            tgt = sk[2] if len(sk) > 2 else el
+            if tgt == el:
+                a[0].skip("excluded by hook")
+            else:
+                (ctx.feature if ELEMS[tgt - 1]["kind"] == "feature" else ctx.rule).skip("rest skipped by hook")
     if raised:
         if CASE.get("fault_kind") == "assert":
             raise AssertionError("hookfault")
